@@ -14,6 +14,7 @@ fn main() {
     // macrocases <Cxx> <macro_cases.txt> <outdir>
     let args: Vec<String> = std::env::args().collect();
     pvharness::install_panic_hook();
+    pvharness::start_watchdog(180);
     assert!(NCASES > 0);
     pvharness::cmacro::run_cases(&args[1], &args[2], &args[3], &|i, vars| case(i, vars));
 }
